@@ -79,6 +79,9 @@ def gen_scenarios(seed, tier):
     n = 9000 if tier == "quick" else 120000
     kinds = ["map", "map", "flat_map", "retry", "retry", "poll", "throttle", "timeout", "cancel_on_shutdown"]
     for i in range(n):
+        if i % 15 == 14:
+            yield gen_poll_raise(rng, i)
+            continue
         depth = rng.choice([0, 1, 2, 2, 3, 3, 4, 4, 5, 6])
         layers = []
         nretry = npoll = 0
@@ -231,7 +234,44 @@ def origins(s):
     return org
 
 
+def gen_poll_raise(rng, i):
+    """a poll function that RAISES on some invocations while further submissions are still on their way to the polling stage: the
+    exception belongs to the futures that invocation was shown; a future registered while it ran is shown to the next invocation and
+    gets its own outcome (no reference evaluation here: which invocation sees which future is up to the schedule - the direct
+    monitor decides)"""
+    from props.common import schedule_modes
+    nfail = rng.randint(1, 3)
+    lay = ["poll", {"poll_script": [rng.choice(["raise", "raise", "none"]) for _ in range(nfail)] + ["yield"],
+                    "interval": rng.choice([0.5, 1.0]), "cancel_fn": False}]
+    layers = [lay]
+    if rng.random() < 0.4:
+        layers.append(["map", {"fn": True, "errfn": False, "script": [[["retarg"]]], "escript": [[["reraise"]]]}])
+    clients = []
+    k = 0
+    for c in range(rng.choice([2, 2, 3])):
+        ops = []
+        for _ in range(rng.randint(1, 3)):
+            ops.append(["submit", "k%d" % k, [[["sleep", rng.choice([0.0, 0.0, 0.5, 1.0, 1.5])], ["ret", 1000 + k]]]])
+            k += 1
+            if rng.random() < 0.4:
+                ops.append(["sleep", rng.choice([0.5, 1.0])])
+        clients.append(ops)
+    d = dict(kind="stack", idx=i, base=rng.choice(["simpool2", "simpool2", "simsync"]), layers=layers, clients=clients, tail=30.0,
+             seed=rng.randrange(1 << 30), family="poll-raise")
+    d.update(schedule_modes(rng))
+    d["trace_lines"] = True
+    return d
+
+
 def run_one(desc):
+    if desc.get("family") == "poll-raise":
+        from monitors import generic
+        s, ctx, out = sc.run_stack(desc, props=("C03",))
+        hits = generic.mon_poll_fault_attribution(s, ctx, desc, "C01")
+        done = bool(ctx.completed)
+        return {"hits": hits, "blocks": [], "verdicts": ["OK 1 1"] if done and not hits else [], "schedule": list(s.chooser.record),
+                "fingerprint": fingerprint(desc, s) if done else None,
+                "stats": {"family_poll_raise": 1, "poll_raises": sum(1 for e in s.log if e[1] == "pollraise")}, "sample": None}
     s, ctx, out = sc.run_stack(desc, props=("C03",))
     hits = []
     stats = {"depth_%d" % len(desc["layers"]): 1}
